@@ -11,14 +11,15 @@ def norm(v):
     if isinstance(v, float): return {"$float": repr(v)}
     return v
 
+MISSING = "<key missing>"
 def launch(doc):
-    return {"processes": [{"type": p["type"], "command": p["command"], "args": p.get("args", []), "default": p.get("default", False),
+    return {"processes": [{"type": p.get("type", MISSING), "command": p.get("command", MISSING), "args": p.get("args", []), "default": p.get("default", False),
                            "working-dir": p.get("working-dir", ".")} for p in doc.get("processes", [])],
-            "labels": [{"key": l["key"], "value": l["value"]} for l in doc.get("labels", [])],
-            "slices": [{"paths": s["paths"]} for s in doc.get("slices", [])]}
+            "labels": [{"key": l.get("key", MISSING), "value": l.get("value", MISSING)} for l in doc.get("labels", [])],
+            "slices": [{"paths": s.get("paths", MISSING)} for s in doc.get("slices", [])]}
 def group(g):
-    return {"provides": [p["name"] for p in g.get("provides", [])],
-            "requires": [{"name": r["name"], "metadata": norm(r.get("metadata", {}))} for r in g.get("requires", [])]}
+    return {"provides": [p.get("name", MISSING) for p in g.get("provides", [])],
+            "requires": [{"name": r.get("name", MISSING), "metadata": norm(r.get("metadata", {}))} for r in g.get("requires", [])]}
 def plan(doc):
     return [group(doc)] + [group(o) for o in doc.get("or", [])]
 def lcm(doc):
